@@ -1031,8 +1031,8 @@ impl Prop for Prims {
     }
     fn floors(&self) -> Vec<(&'static str, u64, u64)> {
         match self.0 {
-            Which::Distance => vec![("exhaustive pairs", 100000, 2000000), ("prefix cells compared", 1000000, 20000000), ("pairs where a discount lowered the distance", 10000, 100000), ("random pairs beyond capacity 20", 500, 5000), ("long pairs with sampled prefix cells", 200, 2000), ("random cases with per-position character classes", 2000, 20000), ("re-classed repeat calls", 10000, 100000), ("random cases over an alphabet of 41-110 symbols", 3000, 30000), ("random cases over letters related by case or compatibility mappings", 3000, 30000), ("calls with one word held fixed while the other grows", 20000, 200000), ("session calls on one instance", 1000000, 6000000), ("most calls on one instance max ", 131072, 131072), ("hook matrix growths", 3, 3), ("hook matrix max size", 50, 50)],
-            Which::Jaccard => vec![("exhaustive pairs", 100000, 1500000), ("pairs with partial overlap", 20000, 200000), ("pairs beyond the initial capacity of 20", 500, 5000), ("calls whose arguments are ranges of one buffer that overlap only partly", 20000, 200000), ("random cases over a wide alphabet", 1000, 10000), ("hook jaccard accesses", 100000, 1000000)],
+            Which::Distance => vec![("exhaustive pairs", 100000, 2000000), ("prefix cells compared", 1000000, 20000000), ("pairs where a discount lowered the distance", 10000, 100000), ("random pairs beyond capacity 20", 500, 5000), ("long pairs with sampled prefix cells", 200, 2000), ("random cases with per-position character classes", 2000, 20000), ("re-classed repeat calls", 10000, 100000), ("random cases over an alphabet of 41-110 symbols", 3000, 30000), ("random cases over letters related by case or compatibility mappings", 3000, 30000), ("random cases over letters that agree in their low 8, 16 or 20 bits", 3000, 30000), ("calls with one word held fixed while the other grows", 20000, 200000), ("session calls on one instance", 1000000, 6000000), ("most calls on one instance max ", 131072, 131072), ("hook matrix growths", 3, 3), ("hook matrix max size", 50, 50)],
+            Which::Jaccard => vec![("exhaustive pairs", 100000, 1500000), ("pairs with partial overlap", 20000, 200000), ("pairs beyond the initial capacity of 20", 500, 5000), ("calls whose arguments are ranges of one buffer that overlap only partly", 20000, 200000), ("random cases over elements that agree in their low 8, 16 or 20 bits", 1000, 10000), ("random cases over a wide alphabet", 1000, 10000), ("hook jaccard accesses", 100000, 1000000)],
             Which::Index => vec![("prepare calls", 5000, 50000), ("capped calls", 500, 5000), ("calls with ties at the cut", 100, 1000), ("size 0", 300, 3000), ("corpus prepare calls", 200, 2000), ("stores of 1023-5000 records", 50, 500), ("queries with more than 255 distinct grams", 300, 15000), ("calls at the boundary between 'all listed' and 'capped'", 300, 15000), ("session calls on one index", 1000000, 10000000), ("most calls on one index max ", 131000, 131000), ("sessions past 2^17 calls", 2, 20), ("calls with a query without words", 300, 3000), ("sparse indexes of 65 000 - 330 000 records", 16, 160), ("queries with more than 65 536 distinct grams", 2, 50), ("stores of words with letters above U+FFFF and their 16-bit look-alikes", 300, 3000), ("stores of random words and their look-alikes under 8-, 16- or 20-bit packing", 300, 3000)],
             Which::Unchecked => vec![("direct distance/similarity calls", 20000, 200000), ("direct calls beyond capacity 20", 5000, 50000), ("store-level searches", 5000, 50000), ("store-level rounds with 127-1500 records", 200, 2000), ("store-level rounds with clear and re-add", 500, 5000), ("type-ahead sequences with adds in between", 1000, 10000), ("direct call sequences with words of 76-420 letters", 200, 2000), ("direct call sequences with arithmetic length relations", 300, 3000), ("store-level queries of 65-200 words", 300, 3000), ("searches on a surviving store after a neighbour store was dropped", 3000, 30000), ("stores filled on one thread and searched on another", 500, 5000), ("direct calls whose arguments share their buffers", 5000, 50000), ("jaccard calls on sets of 256-70000 distinct elements", 20, 200), ("hook matrix accesses", 1000000, 10000000), ("hook matrix growths", 3, 3), ("hook matrix max size", 50, 50), ("hook counter accesses", 10000, 100000), ("hook cost accesses", 100000, 1000000), ("hook jaccard accesses", 10000, 100000)],
         }
@@ -1057,7 +1057,12 @@ impl Prop for Prims {
             (Which::Distance, "random") => {
                 // mostly few symbols (many repeats, many transpositions); one case in six a real-size alphabet: words
                 // with more than 20 / 32 / 64 distinct letters (per-letter tables beyond their initial capacity)
-                let alpha: Vec<char> = match cx.rng.below(6) {
+                let alpha: Vec<char> = match cx.rng.below(7) {
+                    5 => {
+                        // letters that agree in their low 8, 16 or 20 bits (what a table indexed by part of a code point confuses)
+                        cx.count("random cases over letters that agree in their low 8, 16 or 20 bits");
+                        cv("a\u{161}\u{10061}\u{100061}e\u{165}\u{20065}b\u{10062}\u{100062}1\u{131}\u{10031}")
+                    }
                     0 => cv("a𝐀e😀b1xжcd漢i"),
                     1 => {
                         cx.count("random cases over an alphabet of 41-110 symbols");
@@ -1253,6 +1258,10 @@ impl Prop for Prims {
                     // code points at the edges of every encoding length and table size
                     cx.count("random cases over boundary code points");
                     cv("\0\u{1}\u{7f}\u{80}\u{81}\u{ff}\u{100}\u{7ff}\u{800}\u{d7ff}\u{e000}\u{ffff}\u{10000}\u{10001}\u{1ffff}\u{20000}\u{10ffff}ab")
+                } else if cx.rng.chance(1, 6) {
+                    // elements that agree in their low 8, 16 or 20 bits
+                    cx.count("random cases over elements that agree in their low 8, 16 or 20 bits");
+                    cv("a\u{161}\u{10061}\u{100061}e\u{165}\u{20065}b\u{10062}\u{100062}1\u{131}\u{10031}")
                 } else if cx.rng.chance(1, 3) {
                     // U+0000 (the library's own fill value) is a character like any other
                     cv("\0abcdefghijklmnopqrstuvwxyzäöüßё")
